@@ -1,7 +1,9 @@
 import EAO.Model.BlockSplit
 import EAO.Lemmas.SplitStorage
 /-!
-# Lemmas for `EAO.Properties.C14Blocks`: the level rows of a time block are restart rows; one block = no blocks
+# Lemmas for `EAO.Properties.C14Blocks`: the level rows of a time block are restart rows; one block = no blocks;
+the storage with time blocks restricted to an interval (`blk_restrict`), `Banded` / `RowsInside`, the portfolio plumbing
+(`blocks_split_witness`), set-level ⇒ pair-level alignment (`pairsAligned_of_blocksAligned`), `blockStartsTick` is well formed
 -/
 namespace EAO.BlockSplit
 open EAO EAO.Storage
@@ -952,4 +954,628 @@ theorem blk_interval_build (p0 : StorageP) (aa aaI : Option (List Nat)) (g : Gri
     omega
   · rw [hTI] at hne ⊢
     exact haaI hne
+
+/-! ## set-level alignment ⇒ pair-level alignment -/
+
+theorem strictInc_pairwise : ∀ L : List Nat, strictInc L = true → L.Pairwise (· < ·)
+  | [], _ => List.Pairwise.nil
+  | [a], _ => by simp
+  | a :: b :: rest, h => by
+    have h' : a < b ∧ strictInc (b :: rest) = true := by simpa [strictInc] using h
+    have ih := strictInc_pairwise (b :: rest) h'.2
+    refine List.Pairwise.cons (fun v hv => ?_) ih
+    rcases List.mem_cons.mp hv with rfl | hv
+    · exact h'.1
+    · have := (List.pairwise_cons.mp ih).1 v hv
+      omega
+
+theorem blockPairs_cons2 (x y : Nat) (rest : List Nat) :
+    blockPairs (x :: y :: rest) = (x, y) :: blockPairs (y :: rest) := by simp [blockPairs]
+
+/-- consecutive pairs of a strictly increasing list: neighbours -/
+theorem mem_blockPairs : ∀ (L : List Nat), L.Pairwise (· < ·) → ∀ a e,
+    ((a, e) ∈ blockPairs L ↔ a ∈ L ∧ e ∈ L ∧ a < e ∧ ∀ v ∈ L, ¬ (a < v ∧ v < e))
+  | [], _, a, e => by simp [blockPairs]
+  | [x], _, a, e => by
+    simp [blockPairs]
+    intro h1 h2; omega
+  | x :: y :: rest, hp, a, e => by
+    obtain ⟨hx, hp'⟩ := List.pairwise_cons.mp hp
+    have ih := mem_blockPairs (y :: rest) hp' a e
+    have hy := (List.pairwise_cons.mp hp').1
+    rw [blockPairs_cons2, List.mem_cons, ih]
+    constructor
+    · rintro (h | ⟨h1, h2, h3, h4⟩)
+      · injection h with h1 h2
+        subst h1 h2
+        refine ⟨by simp, by simp, hx e (by simp), fun v hv => ?_⟩
+        rcases List.mem_cons.mp hv with rfl | hv
+        · omega
+        · rcases List.mem_cons.mp hv with rfl | hv
+          · omega
+          · have := hy v hv; omega
+      · refine ⟨List.mem_cons_of_mem _ h1, List.mem_cons_of_mem _ h2, h3, fun v hv => ?_⟩
+        rcases List.mem_cons.mp hv with rfl | hv
+        · have := hx a h1; omega
+        · exact h4 v hv
+    · rintro ⟨h1, h2, h3, h4⟩
+      have hcase : a = x ∨ a ∈ y :: rest := List.mem_cons.mp h1
+      have hcase2 : e = x ∨ e ∈ y :: rest := List.mem_cons.mp h2
+      rcases hcase with k1 | k1
+      · left
+        have he : e ∈ y :: rest := by
+          rcases hcase2 with k2 | k2
+          · omega
+          · exact k2
+        have : e = y := by
+          rcases List.mem_cons.mp he with k3 | k3
+          · exact k3
+          · have := hy e k3
+            have := h4 y (by simp)
+            have := hx y (by simp)
+            omega
+        rw [this, k1]
+      · right
+        have he : e ∈ y :: rest := by
+          rcases hcase2 with k2 | k2
+          · have := hx a k1; omega
+          · exact k2
+        exact ⟨k1, he, h3, fun v hv => h4 v (List.mem_cons_of_mem _ hv)⟩
+
+theorem blockPairs_sorted : ∀ (L : List Nat), L.Pairwise (· < ·) →
+    (blockPairs L).Pairwise (fun p q => p.1 < q.1)
+  | [], _ => by simp [blockPairs]
+  | [x], _ => by simp [blockPairs]
+  | x :: y :: rest, hp => by
+    obtain ⟨hx, hp'⟩ := List.pairwise_cons.mp hp
+    rw [blockPairs_cons2]
+    refine List.Pairwise.cons (fun q hq => ?_) (blockPairs_sorted (y :: rest) hp')
+    have : q.1 ∈ y :: rest := by
+      have hq' : (q.1, q.2) ∈ blockPairs (y :: rest) := hq
+      exact ((mem_blockPairs (y :: rest) hp' q.1 q.2).mp hq').1
+    exact hx _ this
+
+theorem eq_of_sorted_mem : ∀ (l1 l2 : List (Nat × Nat)), l1.Pairwise (fun p q => p.1 < q.1) →
+    l2.Pairwise (fun p q => p.1 < q.1) → (∀ x, x ∈ l1 ↔ x ∈ l2) → l1 = l2
+  | [], [], _, _, _ => rfl
+  | [], b :: l2, _, _, h => by have := (h b).mpr (by simp); simp at this
+  | a :: l1, [], _, _, h => by have := (h a).mp (by simp); simp at this
+  | a :: l1, b :: l2, h1, h2, h => by
+    obtain ⟨ha, h1'⟩ := List.pairwise_cons.mp h1
+    obtain ⟨hb, h2'⟩ := List.pairwise_cons.mp h2
+    have hab : a = b := by
+      have m1 := (h a).mp (by simp)
+      have m2 := (h b).mpr (by simp)
+      rcases List.mem_cons.mp m1 with r | r
+      · exact r
+      · rcases List.mem_cons.mp m2 with r' | r'
+        · exact r'.symm
+        · have := hb a r; have := ha b r'; omega
+    subst hab
+    congr 1
+    apply eq_of_sorted_mem l1 l2 h1' h2'
+    intro x
+    constructor
+    · intro hx
+      rcases List.mem_cons.mp ((h x).mp (List.mem_cons_of_mem _ hx)) with r | r
+      · have := ha x hx; rw [r] at this; omega
+      · exact r
+    · intro hx
+      rcases List.mem_cons.mp ((h x).mpr (List.mem_cons_of_mem _ hx)) with r | r
+      · have := hb x hx; rw [r] at this; omega
+      · exact r
+
+theorem pairwise_unique {α} (R : α → α → Prop) : ∀ (l : List α), l.Pairwise R → ∀ x ∈ l, ∀ y ∈ l,
+    ¬ R x y → ¬ R y x → x = y
+  | [], _, x, hx, _, _, _, _ => by simp at hx
+  | z :: l, hp, x, hx, y, hy, n1, n2 => by
+    obtain ⟨hz, hp'⟩ := List.pairwise_cons.mp hp
+    have c1 : x = z ∨ x ∈ l := List.mem_cons.mp hx
+    have c2 : y = z ∨ y ∈ l := List.mem_cons.mp hy
+    rcases c1 with k1 | k1
+    · rcases c2 with k2 | k2
+      · rw [k1, k2]
+      · exact absurd (k1 ▸ hz y k2) n1
+    · rcases c2 with k2 | k2
+      · exact absurd (k2 ▸ hz x k1) n2
+      · exact pairwise_unique R l hp' x k1 y k2 n1 n2
+
+/-- the blocks the code finds are the consecutive pairs of the strictly increasing boundary list -/
+theorem blocksOf_boundaries (p : StorageP) (n : Nat) (bl : List (Nat × Nat)) (h : blocksOf p n = .ok bl)
+    (hn : 0 < n) :
+    bl = blockPairs (boundariesOf p.blocks n) ∧ (boundariesOf p.blocks n).Pairwise (· < ·) ∧
+    0 ∈ boundariesOf p.blocks n ∧ n ∈ boundariesOf p.blocks n ∧ ∀ v ∈ boundariesOf p.blocks n, v ≤ n := by
+  have hn0 : ¬ (n = 0) := by omega
+  unfold blocksOf at h
+  unfold boundariesOf
+  simp only [hn0, if_false]
+  cases hb : p.blocks with
+  | none =>
+    simp only [hb] at h
+    injection h with h
+    subst h
+    have hwe : withEnd [0] n = [0, n] := by
+      unfold withEnd
+      rw [if_neg]
+      · rfl
+      · simp; omega
+    simp only [Option.getD_none, hwe]
+    refine ⟨by simp [blockPairs], by simp; omega, by simp, by simp, ?_⟩
+    intro v hv
+    simp at hv
+    omega
+  | some aa =>
+    simp only [hb] at h
+    by_cases hc : (strictInc aa && aa.all (fun v => decide (v < n))) = true
+    · simp only [hc, if_true] at h
+      simp only [Bool.and_eq_true, List.all_eq_true, decide_eq_true_eq] at hc
+      cases aa with
+      | nil => simp at h
+      | cons a0 tl =>
+        simp only at h
+        by_cases h0 : a0 = 0
+        · simp only [h0, if_true] at h
+          injection h with h
+          subst h0
+          have hwe : withEnd (0 :: tl) n = (0 :: tl) ++ [n] := by
+            unfold withEnd
+            rw [if_neg]
+            intro hl
+            have : n ∈ (0 :: tl) := List.mem_of_getLast? hl
+            have := hc.2 n this
+            omega
+          simp only [Option.getD_some, hwe]
+          refine ⟨by rw [← hwe]; exact h.symm, ?_, by simp, by simp, ?_⟩
+          · rw [List.pairwise_append]
+            refine ⟨strictInc_pairwise _ hc.1, by simp, fun a ha b hb => ?_⟩
+            simp at hb
+            subst hb
+            exact hc.2 a ha
+          · intro v hv
+            rcases List.mem_append.mp hv with hv | hv
+            · exact Nat.le_of_lt (hc.2 v hv)
+            · simp at hv; omega
+        · simp [h0] at h
+    · simp [hc] at h
+
+/-- the combinatorial core of the alignment: unsplit boundaries `U` = union of the shifted interval boundaries
+    `LJ k` of the pieces `[sa k, sa k + m k)` -/
+theorem aligned_core {κ} (U : List Nat) (K : List κ) (sa m : κ → Nat) (LJ : κ → List Nat)
+    (hU : U.Pairwise (· < ·))
+    (hLJ : ∀ k ∈ K, 0 < m k → (LJ k).Pairwise (· < ·) ∧ 0 ∈ LJ k ∧ m k ∈ LJ k ∧ ∀ v ∈ LJ k, v ≤ m k)
+    (h0 : ∀ k ∈ K, m k = 0 → sa k = 0)
+    (hsets : ∀ v, v ∈ U ↔ ∃ k ∈ K, 0 < m k ∧ ∃ w ∈ LJ k, v = w + sa k)
+    (hpieces : ∀ k ∈ K, ∀ k' ∈ K, ∀ i, sa k ≤ i → i < sa k + m k → sa k' ≤ i → i < sa k' + m k' → k = k')
+    (k : κ) (hk : k ∈ K) :
+    (∀ ae ∈ blockPairs U, inside (sa k) (m k) ae = true ∨ ae.2 ≤ sa k ∨ sa k + m k ≤ ae.1) ∧
+    (0 < m k → blockPairs (LJ k) = ((blockPairs U).filter (inside (sa k) (m k))).map (unshift (sa k))) := by
+  have hin : ∀ ae : Nat × Nat, inside (sa k) (m k) ae = true ↔ sa k ≤ ae.1 ∧ ae.2 ≤ sa k + m k := by
+    intro ae; unfold inside; simp
+  constructor
+  · intro ae hae
+    by_cases hm : m k = 0
+    · right; right; rw [h0 k hk hm, hm]; omega
+    · obtain ⟨_, z0, zm, _⟩ := hLJ k hk (by omega)
+      have u1 : sa k ∈ U := (hsets _).mpr ⟨k, hk, by omega, 0, z0, by omega⟩
+      have u2 : sa k + m k ∈ U := (hsets _).mpr ⟨k, hk, by omega, m k, zm, by omega⟩
+      have hae' : (ae.1, ae.2) ∈ blockPairs U := hae
+      obtain ⟨_, _, _, hb⟩ := (mem_blockPairs U hU ae.1 ae.2).mp hae'
+      have b1 := hb _ u1
+      have b2 := hb _ u2
+      rw [hin]
+      omega
+  · intro hm
+    obtain ⟨zp, z0, zm, zle⟩ := hLJ k hk hm
+    apply eq_of_sorted_mem _ _ (blockPairs_sorted _ zp)
+    · rw [List.pairwise_map]
+      refine List.Pairwise.imp_of_mem ?_ ((blockPairs_sorted U hU).filter _)
+      intro p q hp hq hpq
+      have := (hin p).mp (List.mem_filter.mp hp).2
+      have := (hin q).mp (List.mem_filter.mp hq).2
+      show p.1 - sa k < q.1 - sa k
+      omega
+    · intro x
+      constructor
+      · intro hx
+        have hx' : (x.1, x.2) ∈ blockPairs (LJ k) := hx
+        obtain ⟨x1, x2, x3, x4⟩ := (mem_blockPairs _ zp x.1 x.2).mp hx'
+        have hx2le := zle _ x2
+        refine List.mem_map.mpr ⟨(x.1 + sa k, x.2 + sa k), List.mem_filter.mpr ⟨?_, ?_⟩, ?_⟩
+        · refine (mem_blockPairs U hU _ _).mpr ⟨(hsets _).mpr ⟨k, hk, hm, x.1, x1, rfl⟩,
+            (hsets _).mpr ⟨k, hk, hm, x.2, x2, rfl⟩, by omega, ?_⟩
+          intro v hv hbet
+          obtain ⟨k', hk', hm', w', hw', hvw⟩ := (hsets v).mp hv
+          have hw'le := (hLJ k' hk' hm').2.2.2 w' hw'
+          by_cases hw0 : w' = 0
+          · have := hpieces k hk k' hk' v (by omega) (by omega) (by omega) (by omega)
+            subst this
+            exact x4 w' hw' (by omega)
+          · have := hpieces k hk k' hk' (v - 1) (by omega) (by omega) (by omega) (by omega)
+            subst this
+            exact x4 w' hw' (by omega)
+        · rw [hin]; simp only; omega
+        · unfold unshift
+          simp
+      · intro hx
+        obtain ⟨ae, hae, rfl⟩ := List.mem_map.mp hx
+        obtain ⟨hae1, hae2⟩ := List.mem_filter.mp hae
+        have hi := (hin ae).mp hae2
+        have hae' : (ae.1, ae.2) ∈ blockPairs U := hae1
+        obtain ⟨y1, y2, y3, y4⟩ := (mem_blockPairs U hU ae.1 ae.2).mp hae'
+        show (ae.1 - sa k, ae.2 - sa k) ∈ blockPairs (LJ k)
+        refine (mem_blockPairs _ zp _ _).mpr ⟨?_, ?_, by omega, ?_⟩
+        · obtain ⟨k', hk', hm', w', hw', hvw⟩ := (hsets ae.1).mp y1
+          have hw'le := (hLJ k' hk' hm').2.2.2 w' hw'
+          by_cases hwm : w' = m k'
+          · by_cases hsa : ae.1 = sa k
+            · rw [hsa, Nat.sub_self]; exact z0
+            · have := hpieces k hk k' hk' (ae.1 - 1) (by omega) (by omega) (by omega) (by omega)
+              subst this
+              omega
+          · have := hpieces k hk k' hk' ae.1 (by omega) (by omega) (by omega) (by omega)
+            subst this
+            have : ae.1 - sa k = w' := by omega
+            rw [this]; exact hw'
+        · obtain ⟨k', hk', hm', w', hw', hvw⟩ := (hsets ae.2).mp y2
+          have hw'le := (hLJ k' hk' hm').2.2.2 w' hw'
+          by_cases hw0 : w' = 0
+          · by_cases hsa : ae.2 = sa k + m k
+            · have : ae.2 - sa k = m k := by omega
+              rw [this]; exact zm
+            · have := hpieces k hk k' hk' ae.2 (by omega) (by omega) (by omega) (by omega)
+              subst this
+              omega
+          · have := hpieces k hk k' hk' (ae.2 - 1) (by omega) (by omega) (by omega) (by omega)
+            subst this
+            have : ae.2 - sa k = w' := by omega
+            rw [this]; exact hw'
+        · intro w hw hbet
+          exact y4 (w + sa k) ((hsets _).mpr ⟨k, hk, hm, w, hw, rfl⟩) (by omega)
+
+theorem restrictedK_interval (ref : Grid) (gs ge : Int) (start stop : Option Int) (df : List Rat) (ab : Int × Int)
+    (hidx : ref.idx = List.range ref.T) (hpts : ∀ t ∈ ref.pts, gs ≤ t ∧ t < ge) :
+    restrictedK (ref.interval ab.1 ab.2) ab.1 ab.2 start stop (sel (ref.mask ab.1 ab.2) df) =
+      (restrictedK ref gs ge start stop df).pick (intervalSteps ref ab) := by
+  show ({ (ref.interval ab.1 ab.2) with df := sel (ref.mask ab.1 ab.2) df } : Grid).restrict
+      (start.getD ab.1) (stop.getD ab.2) = _
+  rw [interval_window_eq ref _ ab gs ge start stop hpts, interval_restrict_eq_pick ref df ab _ _ hidx]
+  rfl
+
+theorem segStart_nil (g : Grid) (I : List Nat) (h : (g.posIn I).length = 0) : g.segStart I = 0 := by
+  unfold Grid.segStart
+  rw [List.eq_nil_of_length_eq_zero h]
+  rfl
+
+/-- **set-level alignment ⇒ pair-level alignment** for one storage, when the block starts found in every interval
+    with at least one step pass the checks of the builder -/
+theorem pairsAlignedAt_of_sameSet (p : StorageP) (bs : Option Nat) (start stop : Option Int) (df : List Rat)
+    (ref : Grid) (gs ge : Int) (cuts : List Int)
+    (hidx : ref.idx = List.range ref.T) (hdt : ref.dt.length = ref.T) (hdf : df.length = ref.T)
+    (hpts : ∀ t ∈ ref.pts, gs ≤ t ∧ t < ge)
+    (htl : tiles (restrictedK ref gs ge start stop df) ((splitPairs cuts).map (intervalSteps ref)) = true)
+    (hdis : ((splitPairs cuts).map (intervalSteps ref)).Pairwise fun I J => ∀ t ∈ I, t ∉ J)
+    (hS : sameSet (unsplitBoundaries ref gs ge bs start stop df)
+      (splitBoundaries ref gs ge cuts bs start stop df) = true)
+    (hJ : (∃ bl, blocksOf { p with blocks := blocksOn ref gs ge bs start stop df }
+        (restrictedK ref gs ge start stop df).T = .ok bl) →
+      ∀ ab ∈ splitPairs cuts, ((restrictedK ref gs ge start stop df).posIn (intervalSteps ref ab)).length ≠ 0 →
+      ∃ blJ, blocksOf { p with blocks := (blocksOn (ref.interval ab.1 ab.2) ab.1 ab.2 bs start stop
+        (sel (ref.mask ab.1 ab.2) df)) }
+        ((restrictedK ref gs ge start stop df).posIn (intervalSteps ref ab)).length = .ok blJ) :
+    pairsAlignedAt p bs start stop df ref gs ge cuts = true := by
+  have hg : (restrictedK ref gs ge start stop df).Ok := restrict_ok ref df (start.getD gs) (stop.getD ge) hidx hdt hdf
+  have hgJT : ∀ ab, (restrictedK (ref.interval ab.1 ab.2) ab.1 ab.2 start stop (sel (ref.mask ab.1 ab.2) df)).T =
+      ((restrictedK ref gs ge start stop df).posIn (intervalSteps ref ab)).length := by
+    intro ab
+    rw [restrictedK_interval ref gs ge start stop df ab hidx hpts]
+    exact pick_T _ _ hg
+  unfold splitBoundaries unsplitBoundaries at hS
+  simp only [hgJT] at hS
+  unfold pairsAlignedAt
+  simp only []
+  generalize restrictedK ref gs ge start stop df = g at *
+  have hmle : ∀ I, (g.posIn I).length ≤ g.T := by
+    intro I
+    have : (g.posIn I).length ≤ (List.range g.idx.length).length := List.length_filter_le _ _
+    rw [List.length_range, hg.1] at this
+    exact this
+  cases hb : blocksOf { p with blocks := blocksOn ref gs ge bs start stop df } g.T with
+  | error err => rfl
+  | ok bl =>
+    have hJ := hJ ⟨bl, hb⟩
+    simp only [List.all_eq_true, Bool.and_eq_true, Bool.or_eq_true, decide_eq_true_eq, beq_iff_eq]
+    intro ab hab
+    by_cases hT : g.T = 0
+    · have hm0 : (g.posIn (intervalSteps ref ab)).length = 0 := by have := hmle (intervalSteps ref ab); omega
+      refine ⟨fun ae _ => Or.inr ?_, Or.inl hm0⟩
+      rw [segStart_nil g _ hm0, hm0]; omega
+    · obtain ⟨e1, e2, e3, e4, e5⟩ := blocksOf_boundaries _ g.T bl hb (by omega)
+      have e1' : bl = blockPairs (boundariesOf (blocksOn ref gs ge bs start stop df) g.T) := e1
+      have e2' : (boundariesOf (blocksOn ref gs ge bs start stop df) g.T).Pairwise (· < ·) := e2
+      have hseg := fun I hI => seg_of_tiles g ((splitPairs cuts).map (intervalSteps ref)) htl I hI
+      have hLJ0 : ∀ k : Int × Int, (g.posIn (intervalSteps ref k)).length = 0 →
+          boundariesOf (blocksOn (ref.interval k.1 k.2) k.1 k.2 bs start stop (sel (ref.mask k.1 k.2) df))
+            (g.posIn (intervalSteps ref k)).length = [] := by
+        intro k hk0; unfold boundariesOf; rw [if_pos hk0]
+      simp only [sameSet, Bool.and_eq_true, List.all_eq_true, List.contains_iff_mem] at hS
+      obtain ⟨hS1, hS2⟩ := hS
+      have core := aligned_core (boundariesOf (blocksOn ref gs ge bs start stop df) g.T) (splitPairs cuts)
+        (fun k => g.segStart (intervalSteps ref k)) (fun k => (g.posIn (intervalSteps ref k)).length)
+        (fun k => boundariesOf (blocksOn (ref.interval k.1 k.2) k.1 k.2 bs start stop (sel (ref.mask k.1 k.2) df))
+          (g.posIn (intervalSteps ref k)).length) e2'
+        (fun k hk hm => by
+          obtain ⟨blJ, hbJ⟩ := hJ k hk (by omega)
+          obtain ⟨_, f2, f3, f4, f5⟩ := blocksOf_boundaries _ _ blJ hbJ hm
+          exact ⟨f2, f3, f4, f5⟩)
+        (fun k _ hm => segStart_nil g _ hm)
+        (fun v => by
+          constructor
+          · intro hv
+            obtain ⟨k, hk, hvk⟩ := List.mem_flatMap.mp (hS1 v hv)
+            obtain ⟨w, hw, rfl⟩ := List.mem_map.mp hvk
+            refine ⟨k, hk, ?_, w, hw, rfl⟩
+            by_cases hk0 : (g.posIn (intervalSteps ref k)).length = 0
+            · rw [hLJ0 k hk0] at hw; simp at hw
+            · omega
+          · rintro ⟨k, hk, _, w, hw, rfl⟩
+            exact hS2 _ (List.mem_flatMap.mpr ⟨k, hk, List.mem_map.mpr ⟨w, hw, rfl⟩⟩))
+        (fun k hk k' hk' i h1 h2 h3 h4 => by
+          have hs := hseg _ (List.mem_map_of_mem (f := intervalSteps ref) hk)
+          have hs' := hseg _ (List.mem_map_of_mem (f := intervalSteps ref) hk')
+          have m1 : i ∈ pos g.idx (intervalSteps ref k) := by rw [hs, List.mem_range'_1]; omega
+          have m2 : i ∈ pos g.idx (intervalSteps ref k') := by rw [hs', List.mem_range'_1]; omega
+          have t1 := ((mem_pos _ _ _).mp m1).2
+          have t2 := ((mem_pos _ _ _).mp m2).2
+          have hpw : (splitPairs cuts).Pairwise
+              (fun a b => ∀ t ∈ intervalSteps ref a, t ∉ intervalSteps ref b) := List.pairwise_map.mp hdis
+          exact pairwise_unique _ _ hpw k hk k' hk' (fun h => h _ t1 t2) (fun h => h _ t2 t1))
+        ab hab
+      obtain ⟨c1, c2⟩ := core
+      refine ⟨fun x hx => ?_, ?_⟩
+      · rcases c1 x (e1' ▸ hx) with h | h | h
+        · exact Or.inl (Or.inl h)
+        · exact Or.inl (Or.inr h)
+        · exact Or.inr h
+      · by_cases hm : (g.posIn (intervalSteps ref ab)).length = 0
+        · exact Or.inl hm
+        · right
+          obtain ⟨blJ, hbJ⟩ := hJ ab hab hm
+          have hbj := (blocksOf_boundaries _ _ blJ hbJ (by omega)).1
+          rw [hbJ]
+          simp only [beq_iff_eq]
+          rw [hbj, e1']
+          exact c2 (by omega)
+
+/-! ## `blockStartsTick` passes the checks of the builder -/
+
+theorem pairwise_strictInc : ∀ L : List Nat, L.Pairwise (· < ·) → strictInc L = true
+  | [], _ => rfl
+  | [a], _ => rfl
+  | a :: b :: rest, h => by
+    obtain ⟨h1, h2⟩ := List.pairwise_cons.mp h
+    simp only [strictInc, Bool.and_eq_true, decide_eq_true_eq]
+    exact ⟨h1 b (by simp), pairwise_strictInc (b :: rest) h2⟩
+
+theorem filter_len_mono (l : List Int) (d d' : Int) (h : d ≤ d') :
+    (l.filter fun q => decide (q ≤ d)).length ≤ (l.filter fun q => decide (q ≤ d')).length := by
+  induction l with
+  | nil => simp
+  | cons x xs ih =>
+    by_cases h1 : x ≤ d
+    · have h2 : x ≤ d' := by omega
+      simp [h1, h2, ih]
+    · by_cases h2 : x ≤ d'
+      · simp [h1, h2]; omega
+      · simp [h1, h2, ih]
+
+/-- the tick dates: non-empty, starting at `start`, non-decreasing -/
+theorem tickRange_spec (start stop : Int) (step : Nat) (hs : 0 < step) (hle : start ≤ stop) :
+    ∃ rest, tickRange start stop step = start :: rest ∧ (start :: rest).Pairwise (· ≤ ·) := by
+  have heq : tickRange start stop step =
+      (List.range (((stop - start) / (step : Int)).toNat + 1)).map fun (k : Nat) => start + (k : Int) * (step : Int) := by
+    unfold tickRange; rw [if_neg (by omega)]
+  have hpw : (tickRange start stop step).Pairwise (· ≤ ·) := by
+    rw [heq, List.pairwise_map]
+    refine List.Pairwise.imp ?_ List.pairwise_lt_range
+    intro a b hab
+    have : (a : Int) * step ≤ (b : Int) * step := Int.mul_le_mul_of_nonneg_right (by omega) (by omega)
+    omega
+  rw [List.range_succ_eq_map, List.map_cons] at heq
+  have h0 : start + ((0 : Nat) : Int) * (step : Int) = start := by simp
+  rw [h0] at heq
+  exact ⟨_, heq, heq ▸ hpw⟩
+
+theorem go_spec (g : Grid) (pos : Int → Nat) : ∀ ds : List Int,
+    (∀ v ∈ blockStartsTick.go g pos ds, ∃ d ∈ ds, v = pos d - 1) ∧
+    (∀ d rest, ds = d :: rest → ∃ t, blockStartsTick.go g pos ds = (pos d - 1) :: t)
+  | [] => by
+    refine ⟨fun v hv => ?_, fun d rest h => by cases h⟩
+    simp [blockStartsTick.go] at hv
+  | d :: rest => by
+    obtain ⟨ih, _⟩ := go_spec g pos rest
+    refine ⟨fun v hv => ?_, fun d' rest' h => ?_⟩
+    · unfold blockStartsTick.go at hv
+      rcases List.mem_cons.mp hv with rfl | hv
+      · exact ⟨d, by simp, rfl⟩
+      · split at hv
+        · simp at hv
+        · obtain ⟨d', hd', rfl⟩ := ih v hv
+          exact ⟨d', List.mem_cons_of_mem _ hd', rfl⟩
+    · injection h with h1 h2
+      subst h1
+      unfold blockStartsTick.go
+      exact ⟨_, rfl⟩
+
+theorem go_sorted (g : Grid) (pos : Int → Nat) (hmono : ∀ d d', d ≤ d' → pos d ≤ pos d') : ∀ ds : List Int,
+    ds.Pairwise (· ≤ ·) → (blockStartsTick.go g pos ds).Pairwise (· ≤ ·)
+  | [], _ => by simp [blockStartsTick.go]
+  | d :: rest, h => by
+    obtain ⟨h1, h2⟩ := List.pairwise_cons.mp h
+    unfold blockStartsTick.go
+    refine List.Pairwise.cons (fun v hv => ?_) ?_
+    · split at hv
+      · simp at hv
+      · obtain ⟨d', hd', rfl⟩ := (go_spec g pos rest).1 v hv
+        have := hmono d d' (h1 d' hd')
+        omega
+    · split
+      · simp
+      · exact go_sorted g pos hmono rest h2
+
+theorem dedupe_spec : ∀ (l acc : List Nat), acc.Pairwise (· < ·) → l.Pairwise (· ≤ ·) →
+    (∀ x ∈ acc, ∀ y ∈ l, x ≤ y) →
+    (l.foldl (fun acc a => if acc.contains a then acc else acc ++ [a]) acc).Pairwise (· < ·) ∧
+    (∀ v ∈ l.foldl (fun acc a => if acc.contains a then acc else acc ++ [a]) acc, v ∈ acc ∨ v ∈ l) ∧
+    ∃ t, l.foldl (fun acc a => if acc.contains a then acc else acc ++ [a]) acc = acc ++ t
+  | [], acc, h1, _, _ => ⟨h1, fun v hv => Or.inl hv, [], by simp⟩
+  | y :: l, acc, h1, h2, h3 => by
+    obtain ⟨k1, k2⟩ := List.pairwise_cons.mp h2
+    rw [List.foldl_cons]
+    by_cases hc : acc.contains y = true
+    · simp only [hc, if_true]
+      obtain ⟨r1, r2, r3⟩ := dedupe_spec l acc h1 k2 (fun x hx y' hy' => h3 x hx y' (List.mem_cons_of_mem _ hy'))
+      exact ⟨r1, fun v hv => (r2 v hv).imp id (List.mem_cons_of_mem _), r3⟩
+    · simp only [hc, Bool.false_eq_true, if_false]
+      have hny : y ∉ acc := fun h => hc (List.contains_iff_mem.mpr h)
+      have hacc' : (acc ++ [y]).Pairwise (· < ·) := by
+        rw [List.pairwise_append]
+        refine ⟨h1, by simp, fun a ha b hb => ?_⟩
+        simp at hb
+        subst hb
+        have := h3 a ha b (by simp)
+        have : a ≠ b := fun h => hny (h ▸ ha)
+        omega
+      obtain ⟨r1, r2, t, r3⟩ := dedupe_spec l (acc ++ [y]) hacc' k2 (fun x hx y' hy' => by
+        rcases List.mem_append.mp hx with hx | hx
+        · exact h3 x hx y' (List.mem_cons_of_mem _ hy')
+        · simp at hx; subst hx; exact k1 y' hy')
+      refine ⟨r1, fun v hv => ?_, y :: t, by rw [r3]; simp⟩
+      rcases r2 v hv with h | h
+      · rcases List.mem_append.mp h with h | h
+        · exact Or.inl h
+        · simp at h; subst h; exact Or.inr (by simp)
+      · exact Or.inr (List.mem_cons_of_mem _ h)
+
+theorem blockStartsTick_ok (G : Grid) (s e : Int) (b : Nat) (hb : 0 < b) (hne : 0 < G.pts.length)
+    (hwin : ∀ t ∈ G.pts, s ≤ t ∧ t < e) :
+    (∃ t, blockStartsTick G s e b = 0 :: t) ∧ (blockStartsTick G s e b).Pairwise (· < ·) ∧
+    ∀ v ∈ blockStartsTick G s e b, v < G.pts.length := by
+  obtain ⟨t0, ht0⟩ := List.exists_mem_of_length_pos hne
+  have hw0 := hwin t0 ht0
+  obtain ⟨rest, hds, hpw⟩ := tickRange_spec (s - b) e b hb (by omega)
+  have hmono : ∀ d d' : Int, d ≤ d' →
+      (G.pts.filter fun q => decide (q ≤ d)).length ≤ (G.pts.filter fun q => decide (q ≤ d')).length :=
+    fun d d' h => filter_len_mono G.pts d d' h
+  have hpos0 : (G.pts.filter fun q => decide (q ≤ s - (b : Int))).length = 0 := by
+    rw [List.length_eq_zero_iff, List.filter_eq_nil_iff]
+    intro q hq
+    have := hwin q hq
+    simp only [decide_eq_true_eq]
+    omega
+  unfold blockStartsTick
+  simp only []
+  rw [hds]
+  obtain ⟨gmem, ghead⟩ := go_spec G (fun d => (G.pts.filter fun q => decide (q ≤ d)).length) ((s - (b : Int)) :: rest)
+  obtain ⟨t, ht⟩ := ghead _ _ rfl
+  have hsorted := go_sorted G (fun d => (G.pts.filter fun q => decide (q ≤ d)).length) hmono _ hpw
+  rw [ht] at hsorted gmem ⊢
+  simp only [hpos0] at hsorted gmem ⊢
+  obtain ⟨k1, k2⟩ := List.pairwise_cons.mp hsorted
+  rw [List.foldl_cons]
+  have hc : ([] : List Nat).contains 0 = false := rfl
+  simp only [hc, Bool.false_eq_true, if_false, List.nil_append]
+  obtain ⟨r1, r2, t', r3⟩ := dedupe_spec t [0] (by simp) k2 (fun x _ y _ => by simp at *; omega)
+  refine ⟨⟨t', by rw [r3]; rfl⟩, r1, fun v hv => ?_⟩
+  rcases r2 v hv with h | h
+  · simp at h; omega
+  · obtain ⟨d, _, hd⟩ := gmem v (List.mem_cons_of_mem _ h)
+    have hle : (G.pts.filter fun q => decide (q ≤ d)).length ≤ G.pts.length := List.length_filter_le _ _
+    have hd' : v = (G.pts.filter fun q => decide (q ≤ d)).length - 1 := hd
+    omega
+
+theorem blockStartsTick_zero (G : Grid) (s e : Int) : blockStartsTick G s e 0 = [] := by
+  unfold blockStartsTick
+  simp only []
+  have : tickRange (s - ((0 : Nat) : Int)) e 0 = [] := by unfold tickRange; rw [if_pos (Or.inl rfl)]
+  rw [this]
+  simp [blockStartsTick.go]
+
+/-- the block starts the code computes on a grid with at least one step, all of whose points lie in the window, pass
+    the checks of the builder -/
+theorem blocksOf_tick_ok (p : StorageP) (G : Grid) (s e : Int) (bs : Option Nat) (hne : 0 < G.pts.length)
+    (hwin : ∀ t ∈ G.pts, s ≤ t ∧ t < e) (hb : ∀ b, bs = some b → 0 < b) :
+    ∃ blJ, blocksOf { p with blocks := bs.map fun b => blockStartsTick G s e b } G.pts.length = .ok blJ := by
+  cases bs with
+  | none => exact ⟨[(0, G.pts.length)], rfl⟩
+  | some b =>
+    obtain ⟨⟨t, ht⟩, h2, h3⟩ := blockStartsTick_ok G s e b (hb b rfl) hne hwin
+    have hs := pairwise_strictInc _ h2
+    unfold blocksOf
+    simp only [Option.map_some]
+    generalize blockStartsTick G s e b = aa at *
+    subst ht
+    have hall : (List.all (0 :: t) fun v => decide (v < G.pts.length)) = true := by
+      rw [List.all_eq_true]; intro v hv; simpa using h3 v hv
+    rw [hs, hall]
+    exact ⟨_, rfl⟩
+
+theorem restrict_pts_win (J : Grid) (s e : Int) : ∀ t ∈ (J.restrict s e).pts, s ≤ t ∧ t < e := by
+  intro t ht
+  have ht' : t ∈ sel (J.pts.map fun p => decide (s ≤ p) && decide (p < e)) J.pts := ht
+  rw [sel_map_self'] at ht'
+  have := (List.mem_filter.mp ht').2
+  simpa using this
+
+/-- **the bridge**: under the hypotheses of the split theorem for the portfolio without blocks and with the reference
+    grid inside `[gs, ge)`, alignment of the block boundaries as SETS gives the pair-level alignment -/
+theorem pairsAligned_of_blocksAligned (specs : List SpecK) (ref : Grid) (gs ge : Int) (cuts : List Int)
+    (prices : Prices) (hH : splitHypsS (specs.map fun a => a.unblocked gs ge) ref cuts prices = true)
+    (hpts : ∀ t ∈ ref.pts, gs ≤ t ∧ t < ge) (hA : blocksAligned specs ref gs ge cuts = true) :
+    pairsAligned specs ref gs ge cuts = true := by
+  obtain ⟨hidx, hdt, hdf, _, hpart, hst⟩ := splitHypsS_spec _ ref cuts prices hH
+  obtain ⟨_, hdis⟩ := isPartition_spec _ _ hpart
+  unfold blocksAligned at hA
+  unfold pairsAligned
+  rw [List.all_eq_true] at hA ⊢
+  intro a ha
+  have hAa := hA a ha
+  cases a with
+  | builder b => rfl
+  | storage p bs start stop df =>
+    have hmem : (SpecK.storage p bs start stop df).unblocked gs ge ∈ specs.map fun a => a.unblocked gs ge :=
+      List.mem_map_of_mem ha
+    have hst' : storageStable { p with blocks := none } (restrictedK ref gs ge start stop df)
+        ((splitPairs cuts).map (intervalSteps ref)) = true := hst _ hmem
+    have hdf' : df.length = ref.T := hdf _ hmem
+    have htl : tiles (restrictedK ref gs ge start stop df) ((splitPairs cuts).map (intervalSteps ref)) = true := by
+      unfold storageStable at hst'
+      simp only [Bool.and_eq_true] at hst'
+      exact hst'.2
+    have hg : (restrictedK ref gs ge start stop df).Ok :=
+      restrict_ok ref df (start.getD gs) (stop.getD ge) hidx hdt hdf'
+    refine pairsAlignedAt_of_sameSet p bs start stop df ref gs ge cuts hidx hdt hdf' hpts htl hdis hAa ?_
+    rintro ⟨bl, hbl⟩ ab hab hm
+    have hgJ := restrictedK_interval ref gs ge start stop df ab hidx hpts
+    have hlen : (restrictedK (ref.interval ab.1 ab.2) ab.1 ab.2 start stop (sel (ref.mask ab.1 ab.2) df)).pts.length =
+        ((restrictedK ref gs ge start stop df).posIn (intervalSteps ref ab)).length := by
+      show (restrictedK (ref.interval ab.1 ab.2) ab.1 ab.2 start stop (sel (ref.mask ab.1 ab.2) df)).T = _
+      rw [hgJ]; exact pick_T _ _ hg
+    have hb : ∀ b, bs = some b → 0 < b := by
+      intro b hbs
+      subst hbs
+      by_cases h0 : b = 0
+      · subst h0
+        exfalso
+        have : blocksOn ref gs ge (some 0) start stop df = some [] := by
+          unfold blocksOn
+          simp only [Option.map_some]
+          rw [blockStartsTick_zero]
+        rw [this] at hbl
+        simp [blocksOf, strictInc] at hbl
+      · omega
+    obtain ⟨blJ, h⟩ := blocksOf_tick_ok p
+      (restrictedK (ref.interval ab.1 ab.2) ab.1 ab.2 start stop (sel (ref.mask ab.1 ab.2) df))
+      (start.getD ab.1) (stop.getD ab.2) bs (by omega) (restrict_pts_win _ _ _) hb
+    rw [hlen] at h
+    exact ⟨blJ, h⟩
 end EAO.BlockSplit
